@@ -54,7 +54,7 @@ func C02(r *core.Run) {
 		"(R02.2) every Backend/VersionedBackend method of every implementation can return the error code its contract mandates (NoSuchBucket, NoSuchKey, BucketAlreadyExists, BucketNotEmpty, NoSuchVersion); " +
 		"(R02.3) no delete operation can return NoSuchKey (idempotence); (R02.4) every ErrorCode used has an explicit HTTP status and the five codes of the property map to 404/409, every handler error reaches httpError, ensureErrorResponse is total; " +
 		"(R02.5) CopyObject wires source to destination with the fetched object's contents, size and hash; (R02.6) bucket removal happens only on the non-empty-test's empty arm; " +
-		"(R01.2, shared) every PutObject replaces the stored bytes by one consumption of the input (fs: truncating open of the object path); (R10.7, shared) object deletion is never recursive; (R02.7) deleting a nested key on the fs backends prunes the directories it leaves empty, so an emptied bucket can be deleted. (R02.8) the existence check that may auto-create a bucket is applied only to the addressed bucket; R02.7 also requires the emptiness test to be of the very directory that is removed. (R02.9) the fs delete path does not hand a directory to Remove. (R02.10) the front end and the fs/bolt backends keep no serving-time copy of the store's state in process memory (no remembered directory, bucket or answer). (R02.11) a bolt cursor deletes only after the key it landed on was compared equal with the key sought."
+		"(R01.2, shared) every PutObject replaces the stored bytes by one consumption of the input (fs: truncating open of the object path); (R10.7, shared) object deletion is never recursive; (R02.7) deleting a nested key on the fs backends prunes the directories it leaves empty, so an emptied bucket can be deleted. (R02.8) the existence check that may auto-create a bucket is applied only to the addressed bucket; R02.7 also requires the emptiness test to be of the very directory that is removed. (R02.9) the fs delete path does not hand a directory to Remove. (R02.10) the front end and the fs/bolt backends keep no serving-time copy of the store's state in process memory (no remembered directory, bucket or answer). (R02.11) a bolt cursor deletes only after the key it landed on was compared equal with the key sought. (R01.12) error discipline in path form: no call's error reaches a return untested / not handed back, and no path that found it non-nil ends in success without passing it on or testing it further."
 	r.NotDecided = "read-your-writes, overwrite/copy value semantics, agreement of whole responses with a reference model, auto-bucket behaviour"
 	rule021(r)
 	rule022(r)
@@ -71,6 +71,7 @@ func C02(r *core.Run) {
 	rule029(r)
 	rule0210(r, "C02")
 	rule0211(r)
+	rule0112(r, "C02")
 }
 
 // handler exceptions for R02.1, one reason each
